@@ -44,7 +44,9 @@ class HashedValue(Generic[T]):
             self.id_ = self.value.id_
             self.value = self.value.value
             return
-        if hasattr(self.value, "_id_"):
+        if getattr(type(self.value), "_is_symbolic_expression_", False):
+            # symbolic expressions carry their own identifier; any other value is identified by its address, also when it
+            # happens to answer to the name `_id_` (a catch-all __getattr__, an attribute of that name)
             self.id_ = self.value._id_
         else:
             self.id_ = id(self.value)
